@@ -11,8 +11,10 @@ from archlib import NP, decode_tok, batch_kwargs, solution_of, to_dtype, fr
 from core import Driver, Failure, q, ql
 
 ID = "C15"
-PROOF_MODULES = ["PyribsProofs.C15", "PyribsProofs.C15b"]
+from genf import translate  # noqa: E402,F401  (regenerates lean/PyribsGen/Formulas.lean from the tree under check)
+PROOF_MODULES = ["PyribsProofs.C15", "PyribsProofs.C15b", "PyribsGen.Formulas", "PyribsProofs.GenF"]
 THEOREMS = [
+    "Pyribs.GenFProofs.boundaries_from_source",
     "Pyribs.C15.insertionSort_sorted",
     "Pyribs.C15.insertionSort_perm",
     "Pyribs.C15.remapBoundaries_sorted",
